@@ -341,6 +341,27 @@ def _sweep(n, reverse=False):
     return recipe
 
 
+def r_wide(sim):
+    '''One transaction with 65,540 outputs: output indexes cross the 1-, 2- and 3-byte marks.'''
+    ops = [op for op in sim.spendable(SPENDABLE_KEYS) if _val(sim, op) > 10 ** 7]
+    if not ops:
+        return []
+    v = _val(sim, ops[0])
+    outs = [('ABCD'[i % 4], 1 + i % 5) for i in range(65539)]
+    outs.append(('A', v - sum(x[1] for x in outs)))
+    return [sim.spend([ops[0]], outs)]
+
+
+def r_sweepwide(sim):
+    '''Spend outputs of the wide transaction on both sides of each index-width boundary.'''
+    wide = sorted(op for op in sim.utxos if op[1] >= 65536)
+    if not wide:
+        return []
+    txid = wide[0][0]
+    want = [(txid, i) for i in (0, 255, 256, 65535, 65536, 65538) if (txid, i) in sim.utxos]
+    return [sim.spend([op], [('D', _val(sim, op))]) for op in want]
+
+
 def _collide(k):
     def recipe(sim):
         return ('collision-coinbase', k)
@@ -362,6 +383,7 @@ def _spend_collide(k):
 RECIPES = {
     'cb': r_cb, 'old': r_spend_old, 'new': r_spend_new, 'chain2': r_chain2, 'fan': r_fan,
     'multi': r_multi, 'opret': r_opret_spend, 'big252': r_big252, 'sweep252': r_sweep252, 'empty': r_spend_empty, 'self': r_self,
+    'wide': r_wide, 'sweepwide': r_sweepwide,
     'col0': _collide(0), 'col1': _collide(1), 'col2': _collide(2),
     'scol0': _spend_collide(0), 'scol1': _spend_collide(1), 'scol2': _spend_collide(2),
 }
